@@ -183,6 +183,24 @@ def check_value(acc, spec, thorough):
             acc.failure("C15:pieces_formatting:join", case, "got %r expected %r" % (C.cells(got), want_cells))
     if C.cells(other) != [("q", (("fg", 32),))]:
         acc.failure("C15:operand_changed", {"f": shown}, "join changed an item")
+    # --- derived value: operands used first (their shared formatting computed), then concatenated with an empty operand ----------
+    try:
+        empty = _fmtstr("")
+        empty.upper(), f.upper(), empty.ljust(1, "*"), f.ljust(n + 1, "*")
+        for label, h in (("(fmtstr('') + f).upper()", empty + f), ("(f + fmtstr('')).upper()", f + empty), ("(f + f).center(2n+2)", f + f)):
+            hc = C.cells(h)
+            hshared = shared_of_chars(hc)
+            got = h.upper() if "upper" in label else h.center(2 * n + 2)
+            want_text = h.s.upper() if "upper" in label else h.s.center(2 * n + 2)
+            case = {"f": shown, "call": label}
+            acc.case(n > 0, key=(spec, label), sample=case)
+            acc.transitions += 1
+            if got.s != want_text:
+                acc.failure("C15:text:derived", case, "got %r expected %r" % (got.s, want_text))
+            else:
+                check_formatting(acc, "derived", case, C.cells(got), run_atts, hshared, True)
+    except Exception as ex:  # noqa
+        acc.failure("C15:exception_mismatch:derived", {"f": shown}, repr(ex))
     # --- ljust / rjust ----------------------------------------------------------------------------
     for meth in ("ljust", "rjust"):
         for w in range(0, n + 3):
